@@ -586,6 +586,7 @@ class Emitter:
         self.locals = set(locals_)
         self.on_break = self.on_continue = self.on_end = None   # Lean terms for loop bodies
         self.on_while = None                                    # callback (stmt, rest) -> Lean term
+        self.on_for = None                                      # callback (stmt, rest) -> Lean term
         self.on_assert = None     # Lean term for a failed debug_assert! (None: assertions are dropped)
         self.on_unreachable = None
         self.consts = {}          # rust path -> lean term, for constant patterns (`Some(MessageIntegrity::TYPE) =>`)
@@ -802,6 +803,10 @@ class Emitter:
             if self.on_while is None:
                 raise XlateError("while loop without a loop function")
             return self.on_while(s, rest)
+        if k == "for":
+            if self.on_for is None:
+                raise XlateError("for loop without a loop function")
+            return self.on_for(s, rest)
         if k == "assign":
             _, lhs, op, rhs = s
             for pat, fieldname in self.assigns:
